@@ -9,8 +9,11 @@
 /* ---- dispatch cut (contract discharged by the C08 all-pairs obligations): for a Tuple object, len() is Tuple's
  * Len instance and instance(t, Iter) is Tuple's Iter instance; the real Tuple functions are what runs ---- */
 static struct Iter cv_tuple_iter = { Tuple_Iter_Init, Tuple_Iter_Next, Tuple_Iter_Last, Tuple_Iter_Prev, NULL };
-size_t len(var self) { __CPROVER_assert(HDR(self)->type == Tuple, "len: filter is a Tuple"); return Tuple_Len(self); }
-var instance(var self, var cls) { __CPROVER_assert(HDR(self)->type == Tuple && cls == Iter, "instance(filter, Iter)"); return &cv_tuple_iter; }
+size_t len(var self) { CV_LIMIT(HDR(self)->type == Tuple, "harness: len of the filter Tuple"); return Tuple_Len(self); }
+var instance(var self, var cls) { CV_LIMIT(HDR(self)->type == Tuple && cls == Iter, "harness: instance(filter, Iter)"); return &cv_tuple_iter; }
+/* indexed access to the filter (a scanner that uses len/get instead of foreach): Tuple's own Get instance, c_int of an Int object */
+var get(var self, var key) { CV_LIMIT(HDR(self)->type == Tuple, "harness: get on the filter Tuple"); return Tuple_Get(self, key); }
+int64_t c_int(var x) { CV_LIMIT(HDR(x)->type == Int, "harness: c_int of an Int"); return ((struct Int*)x)->val; }
 bool eq(var a, var b) { return a == b; }   /* on exception kind objects: identity (discharged by h_eq_kinds + C09.Type_Cmp.k1) */
 
 /* ---- the per-thread record: current(Exception) returns it (the Thread.c TLS lookup is cut here) ---- */
